@@ -213,6 +213,11 @@ func RunCaseOpts(c *Case, pick func(n int) int, o RunOpts) *Result {
 	if c.FreeSched {
 		w.Sched.SetFree()
 	}
+	if c.GatePluginCalls && w.Hooks.OnPluginCall == nil {
+		w.Hooks.OnPluginCall = func(ctx context.Context, call, comp string) {
+			_ = w.Sched.Gate(ctx, call+" "+comp)
+		}
+	}
 	if c.GateCommits {
 		w.DB.CommitGate = func(int) { _ = w.Sched.Gate(context.Background(), "commit") }
 	}
